@@ -243,11 +243,12 @@ impl<T: ?Sized, R: RawMutex> Mutex<T, R> {
 				|| self.raw_unlock_write(),
 			);
 
-			// ensures the key is held long enough
-			drop(key);
-
 			// safety: the mutex is still locked
 			self.raw_unlock_write();
+
+			// the key is given up only after the lock has been released, so that it
+			// cannot be obtained again while this thread still holds the lock
+			drop(key);
 
 			r
 		}
@@ -270,11 +271,12 @@ impl<T: ?Sized, R: RawMutex> Mutex<T, R> {
 				|| self.raw_unlock_write(),
 			);
 
-			// ensures the key is held long enough
-			drop(key);
-
 			// safety: the mutex is still locked
 			self.raw_unlock_write();
+
+			// the key is given up only after the lock has been released, so that it
+			// cannot be obtained again while this thread still holds the lock
+			drop(key);
 
 			Ok(r)
 		}
